@@ -57,6 +57,8 @@ def mk_world(seed):
     w.set_file("/bin/noexec", b"data", mode="noexec")
     w.mkdir("/bin/dir")
     w.set_file("/bin/y (deleted)", b"#!")
+    for pth in ("/usr/bin/sed", "/tmp/deleted", "/opt/node", "/x/a.out"):
+        w.set_file(pth, b"#!")
     return w, p
 
 
@@ -89,6 +91,24 @@ def run_case(case, st):
             # restore
             p.zombie = False
             p.wstatus = None
+    elif k == "zcmdline":
+        p.comm = case[1]
+        w.exit(p.pid)
+        for nm in ("cmdline",):          # (exe/cwd of a zombie: not specified by the statement)
+            got = outcome(getattr(pr, nm))
+            ok = got[0] == "exc" and got[1] == "ZombieProcess"
+            chk("zombie-%s" % nm, got, ok, "ZombieProcess")
+        p.zombie = False
+        p.wstatus = None
+    elif k == "nameseq":
+        p.comm = case[1]
+        for data in case[2]:
+            p.cmdline = data
+            got = outcome(pr.name)
+            argv = ref_cmdline(data, False)
+            base = os.path.basename(argv[0]) if argv else ""
+            exp = base if base.startswith(fsd(case[1])) else fsd(case[1])
+            chk("follows-current-argv", got, got == ("ok", exp), exp)
     elif k == "environ":
         p.environ = case[1]
         must, may = ref_environ(case[1])
@@ -198,6 +218,10 @@ def build_cases(thorough):
             cases.append(("cmdline", sp, False))             # title overwritten, no NUL at all
             cases.append(("cmdline", sp + b"\0", False))     # spaces as separators, trailing NUL only
     cases.append(("cmdline", b"/bin/x\0", True))
+    for zc in (b"Web Content", b"tmux: server", b"a) S (b", b"x y z", b"\tq"):
+        cases.append(("zcmdline", zc))
+    for comm in (b"a" * 15, b"long-program-na"):
+        cases.append(("nameseq", comm, [comm + b"-one\0", comm + b"-two\0", b"/usr/bin/other\0", comm + b"-three x\0"]))
     cases.append(("cmdline", b"", False))
     envs = [[]]
     for n in range(1, nmax + 2):
@@ -207,7 +231,7 @@ def build_cases(thorough):
     cases.append(("environ", b"A=1\0\0garbage=1\0"))
     cases.append(("environ", b""))
     targets = ["/bin/x", "/bin/x (deleted)", "/bin/y (deleted)", "/bin/x\0junk", "/bin/x (deleted)\0 (deleted)",
-               "/tmp/a b", None]
+               "/tmp/a b", None, "/usr/bin/sed (deleted)", "/tmp/deleted (deleted)", "/opt/node (deleted)", "/x/a.out (deleted)"]
     cmds = [b"/bin/x\0-a\0", b"x\0", b"/bin/noexec\0", b"/bin/dir\0", b"", b"/bin/missing\0", b"/bin/x -a"]
     for which in ("exe", "cwd"):
         for t in targets:
@@ -224,7 +248,7 @@ def build_cases(thorough):
 
 
 def enc(c):
-    return [x.decode("latin-1") if isinstance(x, bytes) else x for x in c]
+    return [x.decode("latin-1") if isinstance(x, bytes) else ([y.decode("latin-1") for y in x] if isinstance(x, list) else x) for x in c]
 
 
 def dec(c):
@@ -235,6 +259,11 @@ def dec(c):
         c[4] = c[4].encode("latin-1")
     elif c[0] == "name":
         c[1], c[2] = c[1].encode("latin-1"), c[2].encode("latin-1")
+    elif c[0] == "zcmdline":
+        c[1] = c[1].encode("latin-1")
+    elif c[0] == "nameseq":
+        c[1] = c[1].encode("latin-1")
+        c[2] = [x.encode("latin-1") for x in c[2]]
     return tuple(c)
 
 
